@@ -66,7 +66,7 @@ ASSUMPTIONS = [
 	"the oracle does not (cannot) demand that it is subtracted",
 	"return dtype / container type (list vs tuple) are not demanded",
 ]
-REQUIRED = {"proper_window_cases": 20, "neg_end_cases": 10, "args_cases": 20,
+REQUIRED = {"view_model_cases": 50, "proper_window_cases": 20, "neg_end_cases": 10, "args_cases": 20,
 	"attr_cases": 20, "multi_output_cases": 20, "batch_not_dividing": 20,
 	"mutants_identifiable": 50}
 TIMEOUT = {"quick": 900, "thorough": 5400}
@@ -175,6 +175,21 @@ class ExactModel(torch.nn.Module):
 		return list(res)
 
 
+class ViewModel(torch.nn.Module):
+	"""Parameter-free pass-through: the output shares memory with the input
+	whenever the input is contiguous (an Identity / Flatten head)."""
+
+	def __init__(self):
+		super().__init__()
+		self.n_forward = 0
+		self.rows = 0
+
+	def forward(self, X, *args):
+		self.n_forward += 1
+		self.rows += X.shape[0]
+		return X.reshape(X.shape[0], -1)
+
+
 def f_np(W, U, M, argsum):
 	"""numpy twin on index sequences M (K, L) -> (K, D) int64."""
 	ar = numpy.arange(M.shape[1])
@@ -197,6 +212,16 @@ class Ctx:
 		self.n_args = params["n_args"]
 		self.with_param = params.get("with_param", True)
 		self.W, self.U = make_weights(self.seed, self.D, self.A, self.L)
+		self.view_model = bool(params.get("view_model"))
+		if self.view_model:
+			# the model returns (a view of) its flattened input: output d is
+			# the one-hot cell d = a*L + p, i.e. the indicator weights below
+			assert self.D == self.A * self.L and self.n_args == 0
+			self.W = numpy.zeros((self.D, self.A, self.L), dtype=numpy.int64)
+			for a_ in range(self.A):
+				for p_ in range(self.L):
+					self.W[a_ * self.L + p_, a_, p_] = 1
+			self.U = numpy.zeros_like(self.W)
 		r = gen.nprng(ID, "X", self.seed, self.A, self.L, self.n)
 		self.idx = r.integers(0, self.A, size=(self.n, self.L))
 		# unknown characters (all-zero columns, index A in the oracle whose
@@ -237,6 +262,8 @@ class Ctx:
 		self._cache = {}
 
 	def model(self, ret=None):
+		if self.view_model:
+			return ViewModel()
 		m = ExactModel(self.Wmodel, self.Umodel, self.outs, self.container,
 			self.n_args, self.with_param, ret=ret)
 		m.mixed = self.mixed
@@ -720,6 +747,7 @@ def plan(tier, seed):
 		for L in range(1, Lbatch + 1):
 			units.append({"cls": "batch", "A": A, "L": L, "seed": seed,
 				"weight": 1 + (A * L) ** 2 * L / 10.0})
+	units.append({"cls": "view", "seed": seed, "tier": tier, "weight": 20})
 	for k in range(nrand):
 		units.append({"cls": "rand", "k": k, "per": per, "seed": seed,
 			"weight": 30 if tier == "quick" else 120})
@@ -741,6 +769,24 @@ def run_unit(unit, rec):
 			for k in ks:
 				run_case(cls, mk(A, L, s, end, KINDS[k], wi * 7 + k, seed), rec)
 		rec.mark_exhaustive(cls)
+	elif cls == "view":
+		# models whose output aliases their input: every example's mutants
+		# must still be its own, whatever is reused between examples
+		c = 0
+		for A in (2, 4, 5):
+			for L in ((3, 6) if unit["tier"] == "quick" else (2, 3, 6, 9, 14)):
+				for (s, e) in windows(L):
+					K = A * (e - s)
+					for b in (K, K + 3, max(1, K - 1), 1000, 2):
+						for n in (2, 3):
+							c += 1
+							run_case(cls, mk(A, L, s, e, ("tensor", [[A * L]]),
+								c, seed, batch_size=b, n=n, n_args=0,
+								with_param=False, view_model=True,
+								n_unknown=0, mixed_dtypes=False,
+								layout="plain", xdtype=("int8", "float32",
+								"float64")[c % 3]), rec)
+							rec.count("view_model_cases")
 	elif cls == "batch":
 		A, L = unit["A"], unit["L"]
 		c = 0
